@@ -1,5 +1,6 @@
 """C03 - JSON / YAML / TOML output decodes back to the value that was output."""
 import json
+import re
 
 from .. import core, values, decoders, gen
 
@@ -295,9 +296,19 @@ def run(tier, seed, t0):
     npg = 3000 if q else 40000
     tasks += [("program", (seed, i, npg // 16)) for i in range(16)]
     res = core.run_parallel(dispatch, tasks)
+    extra = None
+    if not q:
+        # sanitizer supplement: the same converters, then the importers on their output, interpreted by Miri
+        from .. import sanitizers
+        m = sanitizers.fold_miri(res, "C03")
+        for line in m.get("mismatch_lines", []):
+            res.violation(["round-trip-differs-under-miri", re.sub(r"[0-9]+ bytes", "", line)[:60]], {"tool": "miri", "line": line}, {})
+        extra = {"sanitizer_supplement": {"tool": "cargo +nightly miri run (harness bin miri_conv, 20 shards)", "status": m["status"],
+                                          "conversions_interpreted": m["conversions"], "imports_interpreted": m["imports"],
+                                          "undefined_behaviour_reports": len(m["ub_reports"]), "round_trip_mismatches": m["mismatches"]}}
     if not decoders.HAVE_LIBYAML:
         res.notes.append("libyaml not available: pure-python yaml parser used")
-    return core.finish("C03", tier, seed, res, RULE, t0, replay_known=replay_known,
+    return core.finish("C03", tier, seed, res, RULE, t0, replay_known=replay_known, extra=extra,
                        assumptions=["independent decoders are trusted: CPython json, tomllib (TOML 1.0), libyaml event parser + my YAML 1.2 core-schema resolver",
                                     "TOML arrays mixing types: either an error or a correct round trip is accepted (illegal before TOML 1.0)",
                                     "duplicate field names are not generated (no target format can carry them)"])
@@ -335,7 +346,12 @@ def replay_known(entry):
 
 def replay(path, tier, seed):
     d = json.load(open(path))
-    res = check_witness(d["witness"])
+    if d["witness"].get("tool") == "miri":
+        from .. import sanitizers
+        res = core.Result()
+        sanitizers.fold_miri(res, "C03")
+    else:
+        res = check_witness(d["witness"])
     if res.violations:
         print("VIOLATION property=C03 replay=%s" % path)
         print(json.dumps(res.violations[0], indent=1)[:1500])
